@@ -431,7 +431,10 @@ def run_job(job, rec):
             bad = (z_arr < 1 / a * (1 - 1e-9)) | (z_arr > a * (1 + 1e-9))
             rec.check(not bad.any(), "stretch-factor-out-of-range",
                       lambda: f"{int(bad.sum())} of {z_arr.size} stretch factors recovered from Y = X_j + z (X_i - X_j) lie outside [1/a, a] = [{1 / a:.3f}, {a:.3f}]; e.g. {z_arr[bad][:3]}", ctx)
-            if not bad.any():
+            # with bounds, reflected proposals hide their stretch factor: the decodable ones are a biased subset,
+            # so the law of z and of the partner is judged on unbounded runs only
+            unbounded = res["info"]["lo"] is None
+            if not bad.any() and unbounded:
                 def pvz(nn, stage):
                     zz = z_arr if stage == 0 else np.asarray(second_run()["zs"], float)
                     u = (np.sqrt(zz) - 1 / np.sqrt(a)) / (np.sqrt(a) - 1 / np.sqrt(a))
@@ -441,6 +444,8 @@ def run_job(job, rec):
             nw = res["n_walkers"]
 
             def pvo(nn, stage):
+                if not unbounded:
+                    return 1.0
                 oo = np.asarray(res["offsets"] if stage == 0 else second_run()["offsets"], int)
                 obs = np.bincount(oo, minlength=nw)[1:nw]
                 return st.chi2_p(obs, np.full(nw - 1, obs.sum() / (nw - 1)))
